@@ -115,3 +115,47 @@ Proof.
   - exists x. cbn. auto.
   - destruct (IH z) as (b & Hb & Hin). exists b. split; [exact Hb|]. cbn in *. tauto.
 Qed.
+
+(* ------------------------------------------------------------------ narrow-wide networks *)
+Theorem emit_ni_flags_nw d off x :
+  d_nw d = true ->
+  let mn := pick_bus true "narrow" (cn_mgr_buses x) in let sn := pick_bus true "narrow" (cn_sbr_buses x) in
+  let mw := pick_bus true "wide" (cn_mgr_buses x) in let sw := pick_bus true "wide" (cn_sbr_buses x) in
+  ni_flags (emit_ni d off x) = [("ChimneyCfgN", (is_some sn, is_some mn)); ("ChimneyCfgW", (is_some sw, is_some mw))] /\
+  ni_axi (emit_ni d off x) = ni_bindings "axi_narrow_" mn sn ++ ni_bindings "axi_wide_" mw sw /\
+  ni_module (emit_ni d off x) = "floo_nw_chimney".
+Proof. intros H. unfold emit_ni. rewrite H. cbn. auto. Qed.
+
+Definition has_kind (kind : string) (b : bus) : bool :=
+  match p_type (b_proto b) with Some t => str_eqb t kind | None => false end.
+
+(* the narrow (wide) side of a role is the LAST bus of that role whose protocol has that type; it is absent exactly
+   when the role lists no protocol of that type *)
+Theorem pick_bus_nw kind l :
+  (pick_bus true kind l = None /\ forall b, In b l -> has_kind kind b = false) \/
+  (exists b pre post, pick_bus true kind l = Some b /\ l = pre ++ b :: post /\ has_kind kind b = true /\
+                      forall b', In b' post -> has_kind kind b' = false).
+Proof.
+  unfold pick_bus. cbn [negb orb]. fold (has_kind kind).
+  induction l as [|x l IH]; [left; cbn; split; [reflexivity|intros ? []]|].
+  cbn [filter]. destruct (has_kind kind x) eqn:Ex.
+  - right. destruct IH as [(Hn & Hall)|(b & pre & post & Hb & -> & Hk & Hpost)].
+    + exists x, [], l. split; [|split; [reflexivity|split; [exact Ex|exact Hall]]].
+      cbn [map]. destruct (filter (has_kind kind) l) as [|y ys] eqn:F; [reflexivity|].
+      exfalso. assert (In y (filter (has_kind kind) l)) by (rewrite F; left; reflexivity).
+      apply filter_In in H. destruct H as (Hy & Hky). rewrite (Hall y Hy) in Hky. discriminate.
+    + exists b, (x :: pre), post. split; [|split; [reflexivity|split; assumption]].
+      cbn [map]. destruct (filter (has_kind kind) (pre ++ b :: post)) as [|y ys] eqn:F; [cbn in Hb; discriminate|].
+      cbn [map] in Hb. exact Hb.
+  - destruct IH as [(Hn & Hall)|(b & pre & post & Hb & -> & Hk & Hpost)].
+    + left. split; [exact Hn|]. intros b [<-|Hb]; [exact Ex|apply Hall; exact Hb].
+    + right. exists b, (x :: pre), post. auto.
+Qed.
+
+Corollary nw_side_enabled kind l : is_some (pick_bus true kind l) = existsb (has_kind kind) l.
+Proof.
+  destruct (pick_bus_nw kind l) as [(Hn & Hall)|(b & pre & post & Hb & -> & Hk & _)].
+  - rewrite Hn. cbn. symmetry. apply not_true_iff_false. intros H. apply existsb_exists in H. destruct H as (b & Hb & Hk).
+    rewrite (Hall b Hb) in Hk. discriminate.
+  - rewrite Hb. cbn. symmetry. apply existsb_exists. exists b. split; [apply in_or_app; right; left; reflexivity|exact Hk].
+Qed.
